@@ -1,6 +1,6 @@
 """C15 Copies of PSyIR subtrees are independent and equal.
 
-For every node ``t`` of 11 seed programs the real ``t.copy()`` is taken and
+For every node ``t`` of 12 seed programs the real ``t.copy()`` is taken and
 
 * at copy time: ``c == t``; an independent reflective shape dump of both is
   identical; the copy is a well-formed detached tree; no tree node and no
